@@ -280,6 +280,45 @@ func (c *Ctx) namexRun() *nameVerdicts {
 		}
 		note("auto-variables", bad, "")
 	}
+	// unset variables of separate calculators are separate nulls: giving one a value in place leaves the other null
+	{
+		c1, o1 := m.Call(cctor)
+		c2, o2 := m.Call(cctor)
+		if o1.kind == "ok" && o2.kind == "ok" {
+			callM(c, m, ct, "SetExpression", c1, "x IS NULL")
+			callM(c, m, ct, "SetExpression", c2, "y + 1")
+			if dv, out := callM(c, m, ct, "DefaultVariables", c2); out.kind == "ok" {
+				if dvi, ok := dv.(mIface); ok {
+					if yv, out := callM(c, m, dvi.t, "FindByName", dvi.v, "y"); out.kind == "ok" {
+						if yi, ok := yv.(mIface); ok {
+							if val, out := callM(c, m, yi.t, "Value", yi.v); out.kind == "ok" {
+								m.Call(c.MustFunc(pkgVariants, "Variant", "SetAsInteger"), val, int64(41))
+							}
+						}
+					}
+				}
+			}
+			r, out := callM(c, m, ct, "Evaluate", c1)
+			tp, ok := r.(mTuple)
+			switch {
+			case out.kind == "panic":
+				note("separate-instances", "evaluating ‹x IS NULL› panics: "+out.why, "")
+			case out.kind != "ok" || !ok:
+				note("separate-instances", "", "two calculators: "+out.why)
+			default:
+				res := "error " + errorCode(tp[1])
+				if _, isNil := tp[1].(mNilT); isNil {
+					pl, _ := m.Call(c.MustFunc(pkgVariants, "Variant", "AsObject"), tp[0])
+					res = mRender(pl)
+				}
+				if res != "true" {
+					note("separate-instances", fmt.Sprintf("‹x IS NULL› on one calculator evaluates to %s after the unset variable y of another calculator was given the value 41 in place: unset variables share one null variant", res), "")
+				} else {
+					note("separate-instances", "", "")
+				}
+			}
+		}
+	}
 	// templates: existing entries and values are kept, new names get one entry
 	tctor := c.MustFunc("mustache", "", "NewMustacheTemplate")
 	tt := resultType(tctor)
@@ -595,7 +634,7 @@ func errorField(errv mv, field string) string {
 }
 
 func init() {
-	register(&Rule{ID: "NAME.model", Floor: 6,
+	register(&Rule{ID: "NAME.model", Floor: 7,
 		Doc: "variable discovery in expressions and templates (VariableNames after ParseString), automatic variables (default collections after SetExpression/SetTemplate with entries already present), the collections as ordered lists (every sequence of three of add/remove/remove-by-name/locate/clear/clear-values, FindIndexByName probes after every step) and resolution (first added wins case-insensitively; VAR_NOT_FOUND / FUNC_NOT_FOUND name the missing identifier), evaluated abstractly through the exported API against the list model",
 		Run: func(c *Ctx) []*Obligation {
 			o := newObl("NAME.model")
@@ -606,6 +645,7 @@ func init() {
 				"auto-variables":       c.Pos(c.MustFunc(pkgCalc, "ExpressionCalculator", "CreateVariables").Pos()),
 				"list-model-variables": c.Pos(c.MustFunc("calculator/variables", "", "NewVariableCollection").Pos()),
 				"list-model-functions": c.Pos(c.MustFunc("calculator/functions", "", "NewFunctionCollection").Pos()),
+				"separate-instances":   c.Pos(c.MustFunc("calculator/variables", "", "NewVariable").Pos()),
 				"resolution":           c.Pos(c.MustFunc(pkgCalc, "ExpressionCalculator", "EvaluateUsingVariablesAndFunctions").Pos()),
 			}
 			var keys []string
